@@ -95,6 +95,17 @@ def init (params : List (String × List α)) (rescale : Bool) : Except String (C
 def listParams (c : Chain α) : List String :=
   (c.params.filter (fun p => decide (0 < p.2.length))).map Prod.fst
 
+/-- `Chain.fill_default_array(param, default_array)`: the column `param` is set (replaced in place, or appended when new)
+    after `assert len(default_array) == nsamples` against the first listed parameter; neither the flag nor the stored
+    ranges are touched — the new column is in whatever units the caller supplied. -/
+def fillArray (c : Chain α) (k : String) (v : List α) : Except String (Chain α) :=
+  match listParams c with
+  | [] => .error "AssertionError"
+  | p0 :: _ =>
+    match Dict.get? c.params p0 with
+    | some col => if col.length = v.length then .ok { c with params := Dict.set c.params k v } else .error "AssertionError"
+    | none => .error "AssertionError"
+
 /-! ### call histories -/
 
 inductive Op where
